@@ -4,7 +4,8 @@ import WebAuthnModel.Model.Url
 import WebAuthnModel.Model.Json
 import WebAuthnModel.Model.San
 import WebAuthnModel.Model.Tpm2
-import WebAuthnModel.Model.Jws
+import WebAuthnModel.Model.JwsVerify
+import WebAuthnModel.Model.X509Sig
 import Driver.Asks
 /- JSON form of `encoding/asn1` struct values: a struct is the array of its members in declaration order; integers travel as
    decimal strings (int64 does not fit a JSON double), byte strings as hex or null (nil), integer lists as arrays or null. -/
@@ -139,6 +140,18 @@ def handleAsn1 (op : String) (j : Json) : Except String (Option Json) := do
     match Jws.decodeStd (← getHex j "s") with
     | some b => return some (Json.mkObj [("ok", true), ("b", hex b)])
     | none => return some (Json.mkObj [("ok", false)])
+  | "jws.verifyPlan" =>
+    let key ← parseKeyMat (← j.getObjVal? "key")
+    match Jws.verifyPlan (← getHex j "alg") key (← getHex j "sig") with
+    | .reject => return some (Json.mkObj [("plan", "reject")])
+    | .opaque => return some (Json.mkObj [("plan", "opaque")])
+    | .primitive sc h sg => return some (Json.mkObj [("plan", "primitive"), ("scheme", schemeStr sc), ("hash", h), ("sig", hex sg)])
+  | "x509.checkPlan" =>
+    let key ← parseKeyMat (← j.getObjVal? "key")
+    match X509Sig.checkPlan (← getNat j "alg") key (← getHex j "sig") with
+    | .reject => return some (Json.mkObj [("plan", "reject")])
+    | .opaque => return some (Json.mkObj [("plan", "opaque")])
+    | .primitive sc h sg => return some (Json.mkObj [("plan", "primitive"), ("scheme", schemeStr sc), ("hash", h), ("sig", hex sg)])
   | "jws.strip" => return some (Json.mkObj [("b", hex (Jws.stripWhitespace (← getHex j "s")))])
   | _ => return none
 
